@@ -283,7 +283,9 @@ pub fn estimate_preflate_strategy(info: &PreflateStreamInfo) -> PreflateStrategy
     if info.count_stored_blocks == info.count_blocks {
         return PreflateStrategy::Store;
     }
-    if info.count_huff_blocks == info.count_blocks {
+    // stored blocks contain no references either, so a mix of stored and
+    // reference-free huffman blocks does not use the dictionary
+    if info.count_huff_blocks + info.count_stored_blocks == info.count_blocks {
         return PreflateStrategy::HuffOnly;
     }
     if info.count_rle_blocks == info.count_blocks {
